@@ -232,6 +232,25 @@ def run_extreme(case, acc, order):
             report('spikes_per_cluster', type(u).__name__ if isinstance(u, BaseException) else 'value',
                    {'vector': v.tolist()}, {'unique': sorted(set(vals)), 'groups': exp_spc},
                    u if isinstance(u, BaseException) else {'unique': u, 'groups': spc, 'selected': sel})
+    # a negative id (the "unassigned" marker of some sorters) is an id like any other for grouping and
+    # selection (the unique / grouped-mean helpers are documented for non-negative ids only)
+    if not dt.startswith('u'):
+        for vec in ([2, -1, 0, 2, -1, 5], [-1, -1], [0, -1], [5, 0, -1, 0], [-2, -1, 3, -2]):
+            v = np.array(vec, dtype=dt)
+            exp_spc = {}
+            for i, x in enumerate(vec):
+                exp_spc.setdefault(int(x), []).append(i)
+            try:
+                spc = {int(k): as_list(x) for k, x in _spikes_per_cluster(v).items()}
+                sel = as_list(_spikes_in_clusters(v, [vec[0], -1]))
+            except Exception as e:
+                spc = sel = e
+            acc.step(True, 'groups:negative-id')
+            exp_sel = sorted(set(exp_spc.get(vec[0], []) + exp_spc.get(-1, [])))
+            if spc != exp_spc or sel != exp_sel:
+                report('spikes_per_cluster', type(spc).__name__ if isinstance(spc, BaseException)
+                       else 'negative-id', {'vector': vec}, {'groups': exp_spc, 'selected': exp_sel},
+                       spc if isinstance(spc, BaseException) else {'groups': spc, 'selected': sel})
     # groups that are not disjoint: the flattened result is the sorted union, every id once
     for groups in ({0: [0, 2, 5], 1: [2, 3]}, {4: [1, 1, 7], 2: [7, 9]}, {0: [3], 1: [3], 2: [3, 4]},
                    {5: [], 6: [2, 0]}):
